@@ -208,7 +208,9 @@ pub fn impl_answer(case: &Case) -> String {
         }
         "cmp2" => {
             let a = sx_to_value(&payload[0]).expect("bad value");
-            let b = sx_to_value(&payload[1]).expect("bad value");
+            // identical operands are compared as a host would compare a value with a clone of
+            // itself: the clone shares its `Arc`s with the original
+            let b = if payload[0].to_text() == payload[1].to_text() { a.clone() } else { sx_to_value(&payload[1]).expect("bad value") };
             let r = quietly(|| {
                 catch_unwind(AssertUnwindSafe(|| {
                     format!("(cmp2 {} {} {} {})", (a == b) as u8, (b == a) as u8, ord_atom(a.partial_cmp(&b)), ord_atom(b.partial_cmp(&a)))
